@@ -55,3 +55,117 @@ class Parser__parse_unaryop(Contract):
 
     def raises(self, e):
         return {}
+
+
+class Parser__parse_constant_int(Contract):
+    target = 'fpy2.frontend.parser:Parser._parse_constant'
+    # `spelling` is a GHOST parameter: the source text of the constant.  Python hands the parser only e.value.
+    params = {'self': 'Parser', 'e': 'PyIntConstant', 'spelling': 'numstr'}
+    returns = 'Expr'
+    properties = ['C06']
+    inline = True
+    note = ('integer constants: spelling = digits only (no underscores / 0x / 0o / 0b forms); precondition: e.value is the '
+            'positional value of the digits (what CPython gives an integer literal); bool/str/None arms are not numerals')
+
+    def pre(self, e, spelling):
+        return parse_constant_pre(e, spelling)
+
+    def post(self, e, spelling, result):
+        return parse_constant_post(spelling, result)
+
+    def raises(self, e, spelling):
+        return {}
+
+
+class Parser__parse_constant_float(Contract):
+    target = 'fpy2.frontend.parser:Parser._parse_constant'
+    params = {'self': 'Parser', 'e': 'PyFloatConstant', 'spelling': 'numstr'}
+    returns = 'Expr'
+    properties = ['C06']
+    inline = True
+    note = ('float constants: spellings of the decimal grammar of pyvc/strings.py with a `.` or an exponent (no underscores, '
+            'no `1.`/`1.e5` forms, lower-case e); precondition: e.value is the binary64 nearest to the number written '
+            '(symbolically only |x - v| <= ulp/2); str(float) is a TRUSTED model (intrinsics._float_str). '
+            'EXPECTED OPEN on the current tree (F4): the parser rebuilds the literal from the rounded double; the '
+            'Parser__parse_constant_w_* contracts below are concrete instances that replay natively')
+
+    def pre(self, e, spelling):
+        return parse_constant_pre(e, spelling)
+
+    def post(self, e, spelling, result):
+        return parse_constant_post(spelling, result)
+
+    def raises(self, e, spelling):
+        return {}
+
+
+class Parser__parse_constant_w_1e23(Contract):
+    target = 'fpy2.frontend.parser:Parser._parse_constant'
+    params = {'self': 'Parser', 'e': 'PyConstant_1e23', 'spelling': "Literal['1e23']"}
+    returns = 'Expr'
+    properties = ['C06']
+    inline = True
+    note = 'concrete instance of Parser__parse_constant_float: the constant spelled 1e23'
+
+    def pre(self, e, spelling):
+        return parse_constant_pre(e, spelling)
+
+    def post(self, e, spelling, result):
+        return parse_constant_post(spelling, result)
+
+    def raises(self, e, spelling):
+        return {}
+
+
+class Parser__parse_constant_w_0_1(Contract):
+    target = 'fpy2.frontend.parser:Parser._parse_constant'
+    params = {'self': 'Parser', 'e': 'PyConstant_0_1', 'spelling': "Literal['0.1000000000000000055511151231257827']"}
+    returns = 'Expr'
+    properties = ['C06']
+    inline = True
+    note = 'concrete instance of Parser__parse_constant_float: a 34-digit spelling whose nearest double is 0.1'
+
+    def pre(self, e, spelling):
+        return parse_constant_pre(e, spelling)
+
+    def post(self, e, spelling, result):
+        return parse_constant_post(spelling, result)
+
+    def raises(self, e, spelling):
+        return {}
+
+
+class Parser__parse_constant_w_1e999(Contract):
+    target = 'fpy2.frontend.parser:Parser._parse_constant'
+    params = {'self': 'Parser', 'e': 'PyConstant_inf', 'spelling': "Literal['1e999']"}
+    returns = 'Expr'
+    properties = ['C06']
+    inline = True
+    note = 'concrete instance of Parser__parse_constant_float: a value above the double range (Python gives inf)'
+
+    def pre(self, e, spelling):
+        return parse_constant_pre(e, spelling)
+
+    def post(self, e, spelling, result):
+        return parse_constant_post(spelling, result)
+
+    def raises(self, e, spelling):
+        return {}
+
+
+class Parser__parse_constant_w_1em999(Contract):
+    target = 'fpy2.frontend.parser:Parser._parse_constant'
+    params = {'self': 'Parser', 'e': 'PyConstant_tiny', 'spelling': "Literal['1e-999']"}
+    returns = 'Expr'
+    properties = ['C06']
+    inline = True
+    note = 'concrete instance of Parser__parse_constant_float: a value below the double range (Python gives 0.0)'
+
+    def pre(self, e, spelling):
+        return parse_constant_pre(e, spelling)
+
+    def post(self, e, spelling, result):
+        return parse_constant_post(spelling, result)
+
+    def raises(self, e, spelling):
+        return {}
